@@ -47,6 +47,10 @@ def treeTags (t : T) : List String :=
   tagIf (anyNode (fun _ n => n.d.name.toList.any (fun c => c == ' ')) none t) "blankinname" ++
   tagIf (anyNode (fun _ n => n.d.name.toList.any (fun c => c == '/')) none t) "slashname" ++
   tagIf (anyNode (fun _ n => n.d.name.toList.any (fun c => c.toNat ≥ 128)) none t) "unicodename" ++
+  tagIf (anyNode (fun _ n => (n.d.name.toList.filter (· == '/')).length ≥ 2) none t) "twoslash" ++
+  tagIf (anyNode (fun oe n => oe.isSome && !n.kids.isEmpty && n.d.name != "" &&
+      goCodec.isFloat (trimSpace n.d.name).toList) none t) "numblankinner" ++
+  tagIf (anyNode (fun _ n => n.d.name.toList.any (fun c => isSpaceGo c && !isWhitespace c)) none t) "unispacename" ++
   tagIf (anyNode (fun oe n => oe.isSome && n.kids.length == 1) none t) "single" ++
   tagIf (anyNode (edgeP fun e => e.len == 0) none t) "zerolen" ++
   tagIf (anyNode (edgeP fun e => e.len == NIL) none t) "nolen" ++
@@ -98,6 +102,41 @@ def utf8Case (namee outcome name2e where_ : String) : Verdict :=
         else ⟨.oracle, tags, "name " ++ namee ++ " comes back as " ++ name2e ++ " (" ++ outcome ++ ")"⟩
     | _, _ => bad "C01.utf8 fields"
 
+/-- does the (abbreviated) message of the model's error name the reason the implementation gives: every piece of the
+    model's message between `…` occurs in the Go message; a stale strconv error is recognised by its prefix -/
+def errMsgAgrees (model go : String) : Bool :=
+  if isPrefixStr "strconv.ParseFloat" model then isPrefixStr "strconv.ParseFloat" go
+  else (model.splitOn "…").all fun part => part == "" || (go.splitOn part).length ≥ 2
+
+/-- `C01.parse`: a (malformed / odd) text, the implementation's outcome class and dump: tie only -/
+def parseCase (texte outcome dump2 : String) : Verdict :=
+  match unescape texte with
+  | none => bad "C01.parse text"
+  | some text =>
+    let m := parseStr goCodec text
+    let mc := outcomeClass m
+    -- the literal node-stack machine (variables node/edge, nil edges) is run next to the functional one
+    let ml := Lit.parseL goCodec text.toList
+    let litSame := match m, ml with
+      | .ok a, .ok b => a.dump == b.dump
+      | a, b => outcomeClass a == outcomeClass b && mc != "ok"
+    if !litSame then ⟨.tie, [mc], "literal node-stack machine differs: " ++ outcomeClass ml⟩ else
+    let tags := [mc] ++ tagIf (text.length > 3 && mc == "ok") "nontrivial-aux"
+    match m with
+    | .unrep _ =>
+      -- Go succeeds and stores NaN/±Inf, which the dump shows
+      if outcome == "ok" && dumpHasNonfinite dump2 then ⟨.pass, tags, ""⟩
+      else ⟨.tie, tags, "model unrep, implementation " ++ outcome⟩
+    | .ok mt =>
+      if outcome != "ok" then ⟨.tie, tags, "model ok, implementation " ++ outcome⟩
+      else (match T.undump dump2 with
+        | none => bad "C01.parse dump"
+        | some t2 => if mt.dump == t2.dump then ⟨.pass, tags, ""⟩ else ⟨.tie, tags, "model parse " ++ mt.dump⟩)
+    | _ =>
+      if (if isPrefixStr "panic" outcome then "panic" else outcome) == mc then ⟨.pass, tags, ""⟩
+      else ⟨.tie, tags, "model " ++ mc ++ ", implementation " ++ outcome⟩
+
+
 def handle (op : String) (f : List String) : Verdict :=
   match op, f with
   | "rt", [dump, text1e, outcome, dump2, text2e] =>
@@ -114,6 +153,9 @@ def handle (op : String) (f : List String) : Verdict :=
       -- 1. the oracle, on the implementation's output alone (before anything about the model)
       if wf && outcome != "ok" then ⟨.oracle, tags, "Parse(Newick(t)) fails: " ++ outcome⟩ else
       let ot2 := if outcome == "ok" then T.undump dump2 else none
+      -- a finite tree that comes back holding NaN / ±Inf (the dump cannot be read as a `T` then) has not survived
+      if wf && outcome == "ok" && ot2.isNone && dumpHasNonfinite dump2 then
+        ⟨.oracle, tags, "re-read tree holds a non-finite value text1=" ++ escape text1⟩ else
       if outcome == "ok" && ot2.isNone then bad "C01.rt dump2" else
       let oracleOK : Bool := match ot2 with
         | some t2 => roundTripOK t t2 text1 text2
@@ -175,32 +217,18 @@ def handle (op : String) (f : List String) : Verdict :=
             else ⟨.pass, tags ++ tagIf (roundTripOK t t2 text1 text2 && signs1 == signs2) "roundtrip", ""⟩
           | o, _ => ⟨.tie, tags, "model outcome " ++ outcomeClass o⟩
     | _, _, _ => bad "C01.rt0 fields"
-  | "parse", [texte, outcome, dump2] =>
-    match unescape texte with
-    | none => bad "C01.parse text"
-    | some text =>
-      let m := parseStr goCodec text
-      let mc := outcomeClass m
-      -- the literal node-stack machine (variables node/edge, nil edges) is run next to the functional one
-      let ml := Lit.parseL goCodec text.toList
-      let litSame := match m, ml with
-        | .ok a, .ok b => a.dump == b.dump
-        | a, b => outcomeClass a == outcomeClass b && mc != "ok"
-      if !litSame then ⟨.tie, [mc], "literal node-stack machine differs: " ++ outcomeClass ml⟩ else
-      let tags := [mc] ++ tagIf (text.length > 3 && mc == "ok") "nontrivial-aux"
-      match m with
-      | .unrep _ =>
-        -- Go succeeds and stores NaN/±Inf, which the dump shows
-        if outcome == "ok" && dumpHasNonfinite dump2 then ⟨.pass, tags, ""⟩
-        else ⟨.tie, tags, "model unrep, implementation " ++ outcome⟩
-      | .ok mt =>
-        if outcome != "ok" then ⟨.tie, tags, "model ok, implementation " ++ outcome⟩
-        else (match T.undump dump2 with
-          | none => bad "C01.parse dump"
-          | some t2 => if mt.dump == t2.dump then ⟨.pass, tags, ""⟩ else ⟨.tie, tags, "model parse " ++ mt.dump⟩)
-      | _ =>
-        if (if isPrefixStr "panic" outcome then "panic" else outcome) == mc then ⟨.pass, tags, ""⟩
-        else ⟨.tie, tags, "model " ++ mc ++ ", implementation " ++ outcome⟩
+  | "parse", [texte, outcome, dump2] => parseCase texte outcome dump2
+  | "parse", [texte, outcome, dump2, msge] =>
+    -- the same with the text of the implementation's error: FIDELITY only — the verdict is that of the three-field
+    -- form; the tag says whether the reason the model gives for refusing the text is the code's
+    let v := parseCase texte outcome dump2
+    let fid := match unescape texte, unescape msge with
+      | some text, some gomsg =>
+        (match parseStr goCodec text with
+         | .err m => if errMsgAgrees m gomsg then ["fid-errmsg"] else ["fid-errmsg-diff"]
+         | _ => [])
+      | _, _ => []
+    { v with tags := v.tags ++ fid }
   | "multi", [texte, classes, dumps] =>
     match unescape texte with
     | none => bad "C01.multi text"
